@@ -619,9 +619,23 @@ def run(ctx):
         root = rng.choice([T, T, T, S])
         n = rng.randint(0, 6)
         p, kinds, steps = gen_path(rng, n, root, allow_star=root is T)  # '**' over the scope itself is not a target
+        col.count('path_root_checks')
+        if ops_of(p)[0] is not root:
+            col.violation('C18/path-root-differs-from-its-first-argument:%s' % {T: 'T', S: 'S'}[root],
+                          'Path(%s, ...) built from parts of kinds %s is rooted at %r: %r'
+                          % ({T: 'T', S: 'S'}[root], kinds, ops_of(p)[0], short(p)), {'kinds': kinds})
         check_roundtrip(col, p, 'random path', ({T: 'T', S: 'S'}[root], kinds))
         if i % 3 == 0:
             check_sequence_laws(col, p, kinds, steps, rng, full=False)
-        if i % 4 == 0 and root is T:
+        if i % 4 == 0:
             q, _, qsteps = gen_path(rng, rng.randint(0, 3), T)
-            check_concat(col, p, steps, q, qsteps)
+            if root is T:
+                check_concat(col, p, steps, q, qsteps)
+            else:
+                # concatenation keeps the root of its first operand: Path(p, q) for an S-rooted p, and Path(S, q)
+                for desc, joined, want_steps in (('Path(p, q)', call(Path, p, q), steps + qsteps), ('Path(S, q)', call(Path, S, q), qsteps)):
+                    col.count('path_root_checks')
+                    if not joined.ok or ops_of(joined.value)[0] is not S or \
+                            not items_equal(tuple(zip(ops_of(joined.value)[1::2], ops_of(joined.value)[2::2])), want_steps):
+                        col.violation('C18/concatenation-loses-root-or-steps:S',
+                                      '%s with p = %s, q = %s gives %s' % (desc, short(p), short(q), short(joined)), None)
